@@ -745,11 +745,27 @@ def validate(v, cases_by_id, traces, expect_reject=False):
     return rejected
 
 
+CANARY_CASE = {"id": "canary", "eng": "otfad", "C": 256, "unit": 4, "base": 4, "sub": 0, "len": 1024 + 17, "rule": "all", "origin": 0x08001000, "var": "ctr", "api": "low",
+               "kb": True, "nrec": 4, "swap": False, "mode": "ctr", "kbswap": 0, "scr": None,
+               "regs": [{"lo": 0, "hi": 11, "fl": "on", "style": "incl", "inp": "addr", "flags": 3}, {"lo": 12, "hi": 15, "fl": "byp", "style": "excl", "inp": "addr", "flags": 5}]}
+
+
+def make_canary():
+    """Regenerates anchors/C13/canary_traces.json (run once on a tree where the property holds, after a change of the trace format):
+    VERIF_ROOT=/verif PYTHONPATH=/repo:/verif/harness /venv/bin/python -c 'import c13; c13.make_canary()'"""
+    import_spsdk()
+    good = execute(dict(CANARY_CASE))
+    rej, _ = tlc.tv("C13", "FlashEncTrace", good)
+    if rej:
+        raise Machinery(f"not a good canary: {rej}")
+    with open(os.path.join(ANCH, "canary_traces.json"), "w") as f:
+        json.dump(good, f, indent=1)
+
+
 def canary(v):
-    cc = {"id": "canary", "eng": "otfad", "C": 256, "unit": 4, "base": 4, "sub": 0, "len": 1024 + 17, "rule": "all", "origin": 0x08001000, "var": "ctr", "api": "low",
-          "kb": True, "nrec": 4, "swap": False, "mode": "ctr", "kbswap": 0, "scr": None,
-          "regs": [{"lo": 0, "hi": 11, "fl": "on", "style": "incl", "inp": "addr", "flags": 3}, {"lo": 12, "hi": 15, "fl": "byp", "style": "excl", "inp": "addr", "flags": 5}]}
-    good = execute(cc)
+    """Stored known-good traces (independent of the tree under test) must be accepted, each with one corrupted field rejected."""
+    with open(os.path.join(ANCH, "canary_traces.json")) as f:
+        good = json.load(f)
     bad = json.loads(json.dumps(good))
     for t in good:
         t["id"] = "good/" + t["id"].split("/", 1)[1]
@@ -768,7 +784,7 @@ def canary(v):
     want = {t["id"] for t in bad} | {"bad/ctx"}
     if set(rej) != want or len(want) != 5:
         raise Machinery(f"canary failed: rejected {sorted(rej)}; expected exactly the corrupted traces {sorted(want)}")
-    v.extra["canary"] = f"{len(good)} traces of a real run accepted; the same with one ok flag cleared / one range limb / one cipher input changed rejected ({len(want)})"
+    v.extra["canary"] = f"{len(good)} stored good traces accepted; the same with one ok flag cleared / one range limb / one cipher input changed rejected ({len(want)})"
 
 
 class Background(threading.Thread):
